@@ -15,21 +15,41 @@ from ..campaign import Campaign
 from ..campaign import register
 
 
+def lineage(sc, which):
+    """Instances whose operations a copy named ``which`` has 'lived through': itself and its ancestors
+    up to the moment each copy was taken."""
+    parent = {o["as"]: o["inst"] for o in sc["ops"] if o["op"] == "clone"}
+    chain = [which]
+    while chain[-1] in parent:
+        chain.append(parent[chain[-1]])
+    return chain, parent
+
+
 def baseline(sc, which):
+    """The history instance ``which`` would have had without any copying, replayed on one machine 'A':
+    its ancestors' operations up to each copy point, then its own."""
     b = copy.deepcopy(sc)
-    seen_clone = False
+    chain, parent = lineage(sc, which)
+    # index of the clone op that created each member of the chain
+    born = {o["as"]: i for i, o in enumerate(sc["ops"]) if o["op"] == "clone"}
     for i, op in enumerate(b["ops"]):
         if op["op"] == "clone":
-            seen_clone = True
             b["ops"][i] = {"op": "noop"}
-        elif seen_clone:
-            if which == "A" and op.get("inst") == "B":
-                b["ops"][i] = {"op": "noop"}
-            elif which == "B":
-                if op.get("inst") == "A":
-                    b["ops"][i] = {"op": "noop"}
-                elif op.get("inst") == "B":
-                    op["inst"] = "A"
+            continue
+        inst = op.get("inst")
+        if inst is None:
+            continue
+        keep = False
+        # op of an ancestor counts only if it happened before the next descendant in the chain was born
+        for k, member in enumerate(chain):
+            if inst == member:
+                child = chain[k - 1] if k > 0 else None
+                if child is None or i < born[child]:
+                    keep = True
+        if keep:
+            op["inst"] = "A"
+        else:
+            b["ops"][i] = {"op": "noop"}
     return b
 
 
@@ -42,6 +62,7 @@ class C17(Campaign):
     quick_runs = 2500
     thorough_runs = 40000
     fault_kinds = ["snapshot-deepcopy@op", "snapshot-pickle@op", "snapshot-before-activation (async)",
+                   "copy of a copy", "event triggers bound onto the copied model (bind_events_to)",
                    "snapshot-after-failed-op", "diverging suffixes, interleaved"]
     rule = ("one run = a generated machine (all option combinations rtc x allow x state_field x start_value, "
             "custom attribute, model and listener callbacks, sync/async) driven through a prefix, copied with "
@@ -69,6 +90,8 @@ class C17(Campaign):
             prog["model"]["field"] = rnd.choice(["status", "st_x"])
         new = sc["ops"][0]
         new["custom_attr"] = True
+        # event triggers bound onto the model (bind_events_to): a copy's model must drive the copy
+        new["bind_model"] = (prog["model"]["kind"] != "none") and rnd.random() < 0.35
         if rnd.random() < 0.3:
             new["start_value"] = rnd.choice(prog["states"])["id"]
             s = next(x for x in prog["states"] if x["id"] == new["start_value"])
@@ -87,6 +110,16 @@ class C17(Campaign):
         # make sure both get something
         out.append({"op": "send", "inst": "B", "event": rnd.choice(prog["events"])})
         out.append({"op": "send", "inst": "A", "event": rnd.choice(prog["events"])})
+        if rnd.random() < 0.35:
+            # a copy of the copy (either mechanism), driven as well
+            out.append({"op": "clone", "inst": "B", "as": "C", "how": rnd.choice(["deepcopy", "pickle"])})
+            for _ in range(rnd.randint(1, 4)):
+                out.append({"op": "send", "inst": rnd.choice(["C", "C", "B"]), "event": rnd.choice(prog["events"]),
+                            "kwargs": {"x": rnd.randrange(7000, 7999)} if rnd.random() < 0.4 else {}})
+        if new.get("bind_model"):
+            for o in out:
+                if o["op"] == "send" and o["event"] in prog["events"] and rnd.random() < 0.5:
+                    o["style"] = "mbound"
         sc["ops"] = out
         for c in sc["gv"]:
             while len(sc["gv"][c]) < len(out):
@@ -95,7 +128,7 @@ class C17(Campaign):
 
     def evaluate(self, sc):
         out = {"violations": [], "unarmed": [], "mstats": {}, "res": None, "evals": 0, "c17": {}}
-        for which in ("A", "B"):
+        for which in sorted({o["inst"] for o in sc["ops"] if o.get("inst")}):
             b = baseline(sc, which)
             bres = self.execute(b)
             bm = match.Matcher(b, bres)
@@ -129,6 +162,7 @@ class C17(Campaign):
                     out["violations"].append({"clause": "C17.custom_attributes", "kind": "attr", "op": None, "detail": i})
                     return out
         clone_at = next(i for i, o in enumerate(sc["ops"]) if o["op"] == "clone")
+        gen2 = any(o["op"] == "clone" and o["inst"] != "A" for o in sc["ops"])
         for x in f:
             kind = x["kind"]
             if kind in self.DESYNC or kind in ("op_result", "cross_instance", "allowed"):
@@ -137,6 +171,8 @@ class C17(Campaign):
                 d["on"] = op.get("inst")
                 d["how"] = sc["ops"][clone_at]["how"]
                 d["clone_before_activation"] = clone_at == 1 and res["outs"][0]["obs"].get("csv") is None
+                d["second_generation"] = gen2 and op.get("inst") == "C"
+                d["style"] = op.get("style")
                 clause = "C17.independence" if kind == "cross_instance" else "C17.equivalent"
                 out["violations"].append({"clause": clause, "kind": kind, "op": x["op"], "detail": d})
                 break
@@ -144,7 +180,7 @@ class C17(Campaign):
         return out
 
     def nontrivial(self, sc, ev):
-        if ev.get("evals") == 3:
+        if ev.get("evals", 0) >= 3 and not ev["unarmed"][:1] == ["baseline"]:
             return ev["res"]["digest"]
         return None
 
